@@ -219,7 +219,7 @@ impl<'a> Acc<'a> {
 
 pub fn add(run: &mut Run, kf: &KnownFindings, tier: &str) {
     let classify = kf.classifier("C15");
-    let max_len = if tier == "quick" { 3 } else { 5 };
+    let max_len = if tier == "quick" { 3 } else { 6 };
     let alphabet: [u64; 3] = [0, 2, 5];
     let mut acc = Acc {
         run,
